@@ -306,5 +306,5 @@ def case(spec, ctx):
 def shard(ctx):
     if ctx.shard == 0:
         ctx.run_one(case, {"layer": "search"})
-    ctx.run_given(transition_cases(), case, label="transitions")
+    ctx.run_given(transition_cases(), case, label="transitions", share=0.3)
     ctx.run_given(fit_cases(), case, examples=ctx.budget["fit_examples"], label="fit")
